@@ -839,6 +839,217 @@ fn run_stream_case(shared: &mut Bed, case: &StreamCase, model: &str) -> Verdict 
     v
 }
 
+// ------------------------------------------------ flood-variant family ----
+
+/// One flood kind in one wire-level variant. The trip point is asked from the
+/// Lean model (`fframe`: decoded frame -> flood events -> detector); the live
+/// connection is then driven once to one frame *below* it (must be served: PING
+/// ACK, no GOAWAY) and once exactly *to* it (must get GOAWAY(ENHANCE_YOUR_CALM)).
+struct FloodVariant {
+    name: String,
+    /// frames sent before the flood (fed to the model as well, context 0)
+    prelude: Vec<Vec<u8>>,
+    /// wait for the end of the response on this stream before flooding (closed-stream floods)
+    wait_end_of: Option<u32>,
+    /// context of the flood frames for the model: 0 normal, 1 closed stream, 2 inside a header block
+    ctx: u8,
+    /// the flood: frame i is `unit[i % unit.len()]`
+    unit: Vec<Vec<u8>>,
+    /// sent after the flood in the "below" run (ends an open header block); counted frames in it
+    terminator: Vec<u8>,
+    terminator_counted: usize,
+}
+
+fn flood_variants() -> Vec<FloodVariant> {
+    let mut v = vec![];
+    let post_open = frame(1, 0x4, 1, &request_block(true, "/hold/flood"));
+    let mk = |name: &str, prelude: Vec<Vec<u8>>, ctx: u8, unit: Vec<Vec<u8>>| FloodVariant {
+        name: name.to_string(),
+        prelude,
+        wait_end_of: None,
+        ctx,
+        unit,
+        terminator: vec![],
+        terminator_counted: 0,
+    };
+    // --- empty DATA (CVE-2019-9518): zero content, whatever the wire length
+    let d_plain = frame(0, 0, 1, &[]);
+    let d_pad0 = frame(0, 0x8, 1, &[0]);
+    let d_padn = frame(0, 0x8, 1, &[5, 0, 0, 0, 0, 0]);
+    let d_pad255 = {
+        let mut p = vec![255u8];
+        p.extend(vec![0u8; 255]);
+        frame(0, 0x8, 1, &p)
+    };
+    v.push(mk("empty_data:unpadded", vec![post_open.clone()], 0, vec![d_plain.clone()]));
+    v.push(mk("empty_data:padded_pad0", vec![post_open.clone()], 0, vec![d_pad0.clone()]));
+    v.push(mk("empty_data:padded_pad5", vec![post_open.clone()], 0, vec![d_padn.clone()]));
+    v.push(mk("empty_data:padded_pad255", vec![post_open.clone()], 0, vec![d_pad255.clone()]));
+    v.push(mk("empty_data:mixed", vec![post_open.clone()], 0, vec![d_plain, d_padn, d_pad0, d_pad255]));
+    // content-bearing DATA is not an empty frame: never trips
+    v.push(mk("data:one_byte_padded", vec![post_open.clone()], 0, vec![frame(0, 0x8, 1, &[1, b'x', 0])]));
+    // --- PING
+    let ping = frame(6, 0, 0, &[7; 8]);
+    let ping_ack = frame(6, 1, 0, &[7; 8]);
+    v.push(mk("ping:plain", vec![], 0, vec![ping.clone()]));
+    v.push(mk("ping:odd_flags", vec![], 0, vec![frame(6, 0xfe, 0, &[7; 8])]));
+    v.push(mk("ping:ack_flag", vec![], 0, vec![ping_ack.clone()]));
+    v.push(mk("ping:mixed_ack", vec![], 0, vec![ping, ping_ack]));
+    // --- SETTINGS
+    let set_empty = frame(4, 0, 0, &[]);
+    let set_known = frame(4, 0, 0, &[0, 3, 0, 0, 0, 100, 0, 4, 0, 0, 0xff, 0xff]);
+    let set_unknown = {
+        let mut p = vec![];
+        for id in 100u16..107 {
+            p.extend(id.to_be_bytes());
+            p.extend(1u32.to_be_bytes());
+        }
+        frame(4, 0, 0, &p)
+    };
+    v.push(mk("settings:empty", vec![], 0, vec![set_empty.clone()]));
+    v.push(mk("settings:known_entries", vec![], 0, vec![set_known.clone()]));
+    v.push(mk("settings:unknown_ids", vec![], 0, vec![set_unknown.clone()]));
+    v.push(mk("settings:ack", vec![], 0, vec![frame(4, 1, 0, &[])]));
+    v.push(mk("settings:mixed", vec![], 0, vec![set_empty, set_known, set_unknown]));
+    // --- WINDOW_UPDATE on stream 0
+    v.push(mk("window_update0:inc1", vec![], 0, vec![frame(8, 0, 0, &[0, 0, 0, 1])]));
+    v.push(mk("window_update0:small_incs", vec![], 0, vec![frame(8, 0, 0, &[0, 0, 0, 1]), frame(8, 0, 0, &[0x80, 0, 0, 2]), frame(8, 0xff, 0, &[0, 0, 0, 7])]));
+    // --- CONTINUATION (per header block)
+    let block = request_block(false, "/");
+    for (name, first) in [("continuation:empty_headers_fragment", 0usize), ("continuation:two_byte_headers_fragment", 2)] {
+        let mut fv = mk(name, vec![frame(1, 0x1, 1, &block[..first])], 2, vec![frame(9, 0, 1, &[])]);
+        fv.terminator = frame(9, 0x4, 1, &block[first..]);
+        fv.terminator_counted = 1;
+        v.push(fv);
+    }
+    // --- glitch counter: frames on a closed stream
+    let get1 = frame(1, 0x5, 1, &request_block(false, "/"));
+    for (name, unit) in [
+        ("glitch:window_update_on_closed_stream", vec![frame(8, 0, 1, &[0, 0, 0, 1])]),
+        ("glitch:rst_stream_on_closed_stream", vec![frame(3, 0, 1, &8u32.to_be_bytes())]),
+        ("glitch:data_on_closed_stream", vec![frame(0, 0, 1, b"x")]),
+        ("glitch:empty_padded_data_on_closed_stream", vec![frame(0, 0x8, 1, &[0])]),
+    ] {
+        let mut fv = mk(name, vec![get1.clone()], 1, unit);
+        fv.wait_end_of = Some(1);
+        v.push(fv);
+    }
+    // --- frames no counter looks at (the model says so; the connection must simply go on)
+    v.push(mk("uncounted:priority", vec![], 0, vec![frame(2, 0, 3, &[0, 0, 0, 0, 16])]));
+    v.push(mk("uncounted:priority_update", vec![], 0, vec![frame(0x10, 0, 0, &[0, 0, 0, 3, b'u', b'=', b'3'])]));
+    v.push(mk("uncounted:unknown_type", vec![], 0, vec![frame(0x42, 0xff, 0, &[1, 2, 3]), frame(0x0b, 0, 5, &[])]));
+    v
+}
+
+const FLOOD_PROBE: usize = 320;
+
+/// model: (index of the tripping flood frame, 1-based) or None within FLOOD_PROBE frames
+fn flood_trip_points(driver: &str, variants: &[FloodVariant]) -> Vec<Result<Option<usize>, String>> {
+    let mut input = String::new();
+    for (i, fv) in variants.iter().enumerate() {
+        input.push_str(&format!("#case {i}\nnew\nfnew 100 100 50 100 100 20 100 10000 50 500 65536\nf settings 0\n"));
+        for p in &fv.prelude {
+            input.push_str(&format!("fframe 0 {}\n", hex(p)));
+        }
+        input.push_str("#flood\n");
+        for k in 0..FLOOD_PROBE {
+            input.push_str(&format!("fframe {} {}\n", fv.ctx, hex(&fv.unit[k % fv.unit.len()])));
+        }
+    }
+    let mut out: Vec<Result<Option<usize>, String>> = vec![];
+    let mut in_flood = false;
+    let mut k = 0usize;
+    for l in run_model(driver, &input) {
+        if l.starts_with("#case ") {
+            out.push(Ok(None));
+            in_flood = false;
+            continue;
+        }
+        if l == "#flood" {
+            in_flood = true;
+            k = 0;
+            continue;
+        }
+        let Some(cur) = out.last_mut() else { continue };
+        if !in_flood {
+            if l.starts_with("viol") || l.starts_with("err") || l == "bad-op" || l == "incomplete" {
+                *cur = Err(format!("model on the prelude: {l}"));
+            }
+            continue;
+        }
+        k += 1;
+        if matches!(cur, Ok(None)) {
+            if l.starts_with("viol 11") {
+                *cur = Ok(Some(k));
+            } else if !l.starts_with("none") && l != "dead" {
+                *cur = Err(format!("model on flood frame {k}: {l}"));
+            }
+        }
+    }
+    out
+}
+
+fn run_flood_variant(bed: &Bed, fv: &FloodVariant, trip: Option<usize>, at_threshold: bool) -> Verdict {
+    let mut v = Verdict { fails: vec![], known: vec![], tags: vec![], observed: String::new() };
+    let which = if at_threshold { "at" } else { "below" };
+    let name = format!("floodvar:{}:{which}", fv.name);
+    let fail = |v: &mut Verdict, class: &str, detail: String| v.fails.push((class.to_string(), format!("{name}: {detail}")));
+    let mut c = match Client::connect(bed.front).and_then(|mut c| c.handshake().map(|_| c)) {
+        Ok(c) => c,
+        Err(e) => {
+            fail(&mut v, "handshake-failed", e);
+            return v;
+        }
+    };
+    let mut bytes: Vec<u8> = fv.prelude.iter().flatten().copied().collect();
+    if let Some(sid) = fv.wait_end_of {
+        c.send(&bytes);
+        bytes.clear();
+        if c.read_until(CASE_DEADLINE, |fs| stream_ended(fs, sid)) != End::Matched {
+            fail(&mut v, "flood-scene-not-established", format!("no response on stream {sid}"));
+            return v;
+        }
+    }
+    // number of flood frames: to the trip point, one short of it, or a long burst when nothing trips
+    let n = match (trip, at_threshold) {
+        (Some(t), true) => t,
+        (Some(t), false) => t.saturating_sub(1 + fv.terminator_counted),
+        (None, _) => 300,
+    };
+    for k in 0..n {
+        bytes.extend(&fv.unit[k % fv.unit.len()]);
+    }
+    if !(at_threshold && trip.is_some()) {
+        bytes.extend(&fv.terminator);
+    }
+    // the probe behind the flood is a request on a fresh stream (HEADERS is not a counted frame and
+    // runs no flood check, unlike a PING): it must be answered 200 unless the flood tripped
+    const PROBE_SID: u32 = 101;
+    bytes.extend(frame(1, 0x5, PROBE_SID, &request_block(false, "/")));
+    c.send(&bytes);
+    let end = c.read_until(CASE_DEADLINE, |fs| stream_ended(fs, PROBE_SID) || fs.iter().any(|f| f.ty == 7));
+    let goaway = c.goaway();
+    let acked = c.got_200(PROBE_SID);
+    v.observed = format!("sent {n} flood frames, model trip {trip:?}: end {end:?}, goaway {goaway:?}, request behind the flood served {acked}, window_updates {}", c.frames.iter().filter(|f| f.ty == 8).count());
+    let obs = v.observed.clone();
+    v.tags.push(format!("floodvar:{}:{which}:{}", fv.name, match goaway { Some(g) => format!("goaway{g}"), None => if acked { "served".into() } else { "silent".to_string() } }));
+    let expect_trip = at_threshold && trip.is_some();
+    if expect_trip {
+        if goaway != Some(11) {
+            // the flood went through: the frame the model counts is not counted by the connection
+            fail(&mut v, "flood-variant-not-answered-with-enhance-your-calm", obs);
+        } else if c.read_until(CASE_DEADLINE, |_| false) != End::Closed {
+            fail(&mut v, "connection-not-released-after-goaway", obs);
+        }
+    } else if let Some(g) = goaway {
+        let class = if g == 11 { "flood-variant-trips-below-model-threshold" } else { "flood-variant-unexpected-goaway" };
+        fail(&mut v, class, obs);
+    } else if !acked {
+        fail(&mut v, "flood-variant-connection-wedged", obs);
+    }
+    v
+}
+
 // -------------------------------------------------------------------- main ----
 
 struct Verdict {
@@ -997,6 +1208,7 @@ fn main() {
 
     let mut cases = build_cases(args.seed, thorough);
     let mut stream_cases = build_stream_cases(args.seed, thorough);
+    let mut replay_names: Vec<String> = vec![];
     if let Some(path) = &args.replay {
         // replay: only the named case(s) of a `h2conn <name> …` replay file; a replay file of
         // the in-process binary (h2wire) holds nothing for this one
@@ -1005,6 +1217,7 @@ fn main() {
             .filter_map(|o| o.strip_prefix("h2conn ").map(|r| r.split(' ').next().unwrap_or("").to_string()))
             .collect();
         let ping = frame(6, 0, 0, &[1, 2, 3, 4, 5, 6, 7, 8]);
+        replay_names = names.clone();
         stream_cases = names.iter().filter_map(|n| StreamCase::parse(n)).collect();
         cases = names
             .iter()
@@ -1124,6 +1337,54 @@ fn main() {
             }
         }
     }
+    // ---- flood-variant family: every flood kind in its wire-level variants, trip points from the model
+    let replaying = args.replay.is_some();
+    let variants: Vec<FloodVariant> = flood_variants()
+        .into_iter()
+        .filter(|fv| !replaying || replay_names.iter().any(|n| n.starts_with(&format!("floodvar:{}:", fv.name))))
+        .collect();
+    let trips = flood_trip_points(&args.driver, &variants);
+    for (fv, trip) in variants.iter().zip(trips) {
+        let trip = match trip {
+            Ok(t) => t,
+            Err(e) => {
+                push_fail(&mut failures, "flood-variant-model-gave-no-verdict", &format!("{}: {e}", fv.name), vec![format!("h2conn floodvar:{}:at", fv.name)]);
+                continue;
+            }
+        };
+        for at in [false, true] {
+            if at && trip.is_none() {
+                continue;
+            }
+            let v = run_flood_variant(&bed, fv, trip, at);
+            evaluations += 1;
+            nontrivial += 1;
+            for t in &v.tags {
+                *dist.entry(t.clone()).or_insert(0) += 1;
+            }
+            *dist.entry("kind:floodvar".into()).or_insert(0) += 1;
+            if samples.len() < 12 && fv.name.starts_with("empty_data:padded") {
+                samples.push(json!({"case": format!("floodvar:{}:{}", fv.name, if at { "at" } else { "below" }), "model_trip": trip, "observed": v.observed}));
+            }
+            let ops = vec![format!("h2conn floodvar:{}:{}", fv.name, if at { "at" } else { "below" })];
+            for (class, detail) in &v.fails {
+                push_fail(&mut failures, class, detail, ops.clone());
+            }
+        }
+        if !bed.worker.alive().is_alive() {
+            push_fail(&mut failures, "worker-died-or-wedged", &format!("after floodvar:{}", fv.name), vec![format!("h2conn floodvar:{}:at", fv.name)]);
+            break;
+        }
+        if let Some(g) = good.as_mut() {
+            if let Err(e) = good_request(g, good_sid) {
+                push_fail(&mut failures, "concurrent-good-connection-not-served", &format!("after floodvar:{}: {e}", fv.name), vec![format!("h2conn floodvar:{}:at", fv.name)]);
+                good = Client::connect(bed.front).ok().and_then(|mut c| c.handshake().ok().map(|_| c));
+                good_sid = 1;
+            } else {
+                good_sid += 2;
+            }
+        }
+    }
     // ---- stream-state family (verdicts of the Lean table in one driver run)
     let sinput: String = std::iter::once("new".to_string()).chain(stream_cases.iter().map(|c| format!("stream {} {}", c.scene.model_state(), c.fk.name()))).collect::<Vec<_>>().join("\n") + "\n";
     let smodel: Vec<String> = run_model(&args.driver, &sinput).into_iter().skip(1).collect();
@@ -1177,7 +1438,7 @@ fn finish(args: &Args, evaluations: u64, nontrivial: u64, failures: &[Value], kn
         "seed": args.seed,
         "evaluations": evaluations,
         "distinct_nontrivial": nontrivial,
-        "rule": "black box: one real worker (HTTPS listener, H1 backend), one TLS+h2 client connection per case: a complete random/corner frame after the settings exchange followed by a PING (verdict: the Lean decoder's: err c => GOAWAY(c), exact on stream 0 and for oversize, any of PROTOCOL/STREAM_CLOSED/FRAME_SIZE or a stream error when stream state is consulted first; ok => answered, never silence), PING/SETTINGS/WINDOW_UPDATE/CONTINUATION floods with the trip point predicted by the Lean flood model (acknowledged-frame count compared), empty-DATA and rapid-reset floods, zero increment, window overflow, stray CONTINUATION, 120 unanswered requests vs the advertised 100-stream limit, first-SETTINGS payloads vs the model's first_settings; stream-state family on a listener with h2_max_concurrent_streams=2: DATA/HEADERS/WINDOW_UPDATE/RST_STREAM/PRIORITY/CONTINUATION on a stream id that is idle (above every used id), implicitly closed (below), closed by END_STREAM (equal to / below the last id), closed by the peer's RST_STREAM, refused by the stream limit, refused while draining after SoftStop's GOAWAY (own worker), half-closed (remote), open - sent after the scene is established and in one batch with it, random odd ids in thorough; judged by an RFC 9113 5.1 table written here and compared exactly with the Lean table `headerVerdict`; afterwards a slot is freed and a new stream on the same connection must be answered 200; after a GOAWAY the connection must be closed; worker.alive(), a long-lived good connection and a fresh probe connection must keep being served",
+        "rule": "black box: one real worker (HTTPS listener, H1 backend), one TLS+h2 client connection per case: a complete random/corner frame after the settings exchange followed by a PING (verdict: the Lean decoder's: err c => GOAWAY(c), exact on stream 0 and for oversize, any of PROTOCOL/STREAM_CLOSED/FRAME_SIZE or a stream error when stream state is consulted first; ok => answered, never silence), PING/SETTINGS/WINDOW_UPDATE/CONTINUATION floods with the trip point predicted by the Lean flood model (acknowledged-frame count compared), empty-DATA and rapid-reset floods, zero increment, window overflow, stray CONTINUATION, 120 unanswered requests vs the advertised 100-stream limit, first-SETTINGS payloads vs the model's first_settings; flood-variant family: every flood kind in its wire-level variants (empty DATA unpadded / PADDED pad 0 / pad 5 / pad 255 / mixed, on an open and on a closed stream; PING plain / odd flags / ACK / mixed; SETTINGS empty / known entries / unknown ids / ACK / mixed; WINDOW_UPDATE stream 0 with small increments, reserved bit, flags; CONTINUATION with empty fragments after an empty or 2-byte HEADERS fragment; WINDOW_UPDATE / RST_STREAM / DATA floods on a closed stream (glitch counter); PRIORITY / PRIORITY_UPDATE / unknown-type floods, which no counter looks at) - the trip point is computed by the Lean model (decoded frame -> frameEvents -> detector) and the connection is driven once to one frame below it (must be served) and once exactly to it (must get GOAWAY(ENHANCE_YOUR_CALM) and be closed); stream-state family on a listener with h2_max_concurrent_streams=2: DATA/HEADERS/WINDOW_UPDATE/RST_STREAM/PRIORITY/CONTINUATION on a stream id that is idle (above every used id), implicitly closed (below), closed by END_STREAM (equal to / below the last id), closed by the peer's RST_STREAM, refused by the stream limit, refused while draining after SoftStop's GOAWAY (own worker), half-closed (remote), open - sent after the scene is established and in one batch with it, random odd ids in thorough; judged by an RFC 9113 5.1 table written here and compared exactly with the Lean table `headerVerdict`; afterwards a slot is freed and a new stream on the same connection must be answered 200; after a GOAWAY the connection must be closed; worker.alive(), a long-lived good connection and a fresh probe connection must keep being served",
         "samples": samples,
         "traces_validated_against_impl": evaluations - failures.len() as u64,
         "disagreements_checked": evaluations,
